@@ -4,5 +4,5 @@ Require Extraction.
 Require Import ExtrOcamlBasic.
 From DV Require Import Wire.Flow.
 Extraction Language OCaml.
-Extraction "model_flow.ml" transport_init fstep frun ftrace srun strace step crossed crossed_seeded unref
+Extraction "model_flow.ml" transport_init fstep frun ftrace srun strace prun step run crossed crossed_seeded unref
   read_watch_enabled may_queue_more below_limits check_read_watch.
